@@ -2226,6 +2226,33 @@ def c19_sites(repo_root, tier):
         _ob(obs, f"{mn}:{cn}.__call__/site.value-given-guard", okg,
             "the equality form is chosen by `value is not None and not is_undefined(value)`" if okg
             else f"the equality form is chosen by `{ast.unparse(vt[0]) if vt else '?'}`: a falsy value to compare with (0, false, '') falls through to the truthiness form")
+    # what a filter returns is template data: nil for "no value", never a private placeholder object of the module (which the
+    # next filter - compact, json, sort, where - does not recognise as nil)
+    n_ret = 0
+    for m in repo.all_modules():
+        if ".filters." not in m.name:
+            continue
+        sentinels = set()
+        for st in m.tree.body:
+            if isinstance(st, ast.Assign) and len(st.targets) == 1 and isinstance(st.targets[0], ast.Name) and isinstance(st.value, ast.Call) and isinstance(st.value.func, ast.Name) \
+                    and (st.value.func.id == "object" or st.value.func.id.startswith("_")):
+                sentinels.add(st.targets[0].id)
+        if not sentinels:
+            continue
+        for qual, cls, fn, parent in function_defs(m):
+            if not (cls is None or fn.name == "__call__"):
+                continue
+            for r in own_nodes(fn):
+                if not (isinstance(r, ast.Return) and r.value is not None):
+                    continue
+                vals = [r.value.elt] if isinstance(r.value, (ast.ListComp, ast.GeneratorExp)) else [r.value]
+                leaked = sorted({x.id for v in vals for x in ast.walk(v) if isinstance(x, ast.Name) and x.id in sentinels
+                                 and not any(isinstance(k, ast.keyword) and any(y is x for y in ast.walk(k.value)) for k in ast.walk(v))})
+                n_ret += 1
+                if leaked:
+                    _ob(obs, f"{m.name}:{qual}/site.no-placeholder-in-result@{_ordinal(fn, r, ast.Return)}", False,
+                        f"the filter returns the module's private placeholder `{leaked[0]}` as a value: downstream filters (compact, json, sort) do not treat it as nil")
+    _ob(obs, "liquid2.builtin.filters/site.placeholder-free-results", True, f"{n_ret} return statements of filters in modules with private placeholder objects examined")
     # the string-key form reads a property that an item may not have: a missing property is nil (as in the lambda form, where
     # the path evaluates to undefined) - item[key] is read through _getitem(..) or inside a try that handles KeyError
     n_sub = 0
